@@ -810,7 +810,23 @@ void TasgridWrapper::setHierarchy(){
                 (std::string("grid is set for ") + std::to_string(grid.getNumOutputs()) + " outputs, but "
                  + valsfilename + " specifies " + std::to_string(vals.getStride())).c_str());
     if (not pass_flag) return;
-    grid.setHierarchicalCoefficients(vals.release());
+    if (grid.isFourier()){
+        // the file holds (real, imaginary) pairs per output, the format written by -getcoefficients;
+        // the library takes the real parts of all points first and the imaginary parts second
+        size_t num_points = (size_t) grid.getNumPoints();
+        size_t outs = (size_t) grid.getNumOutputs();
+        std::vector<double> coeff(2 * num_points * outs);
+        for(size_t p=0; p<num_points; p++){
+            double const *c = vals.getStrip((int) p);
+            for(size_t j=0; j<outs; j++){
+                coeff[p * outs + j] = c[2*j];
+                coeff[(num_points + p) * outs + j] = c[2*j + 1];
+            }
+        }
+        grid.setHierarchicalCoefficients(coeff);
+    }else{
+        grid.setHierarchicalCoefficients(vals.release());
+    }
 }
 
 template<typename iomode>
